@@ -62,7 +62,9 @@ int main() {
     } else if (!strcmp(cmd, "range")) {
       scanf("%255s", a); long n = h_range(a, out, 40); printf("%ld", n); for (long i = 0; i < n; i++) printf(" %ld", out[i]); printf("\n");
     } else {
-      scanf("%255s", a); long n = h_range_rt(a, out, out2, 40); printf("%ld\n", n);
+      scanf("%255s", a); long n = h_range_rt(a, out, out2, 40); printf("%ld", n);
+      if (n >= 0) { for (long i = 0; i < n / 1000; i++) printf(" %ld", out[i]); printf(" |"); for (long i = 0; i < n % 1000; i++) printf(" %ld", out2[i]); }
+      printf("\n");
     }
   }
 }
